@@ -398,6 +398,11 @@ def c04_level2(ctx):
         c05mod.server_leaves_run(ctx, bins, peer, j, code, 150, st, known_failing=True, prefix="l2/server-left")
     if st.get("server_leaves_decided", 0) < 1:
         ctx.inconclusive.append("l2/server-left: no scenario was decidable")
+    # a client that dies while batches are still to be started: the run fails and the totals still account for every case
+    for j, (ms_, after) in enumerate([(2, 6), (2, 9)] if ctx.tier == "quick" else [(2, 6), (2, 9), (3, 10), (1, 4)]):
+        c05mod.client_fault_run(ctx, bins, peer, 100 + j, ms_, after, st, prefix="l2")
+    if st.get("client_fault_totals_checked", 0) < 1:
+        ctx.inconclusive.append("l2/client-fault: no scenario took place")
 
 
 def c05(ctx):
